@@ -28,6 +28,7 @@ ASSUMPTIONS = [
     "spline strict monotonicity is required for softmax_adjust >= 1e-3 (the default is 1e-2); softmax_adjust = 0 is the documented "
     "'no adjustment' and is only checked for non-decreasing knots",
     "history steps whose raw parameters left the box |raw| <= 50 or became non-finite are not judged (counted)",
+    "float32 pass: raw box |raw| <= 20 (at 50 squares/products of constrained values underflow into the flushed denormal range)",
     "an invalid argument counts as rejected when any exception is raised",
 ]
 ANCHOR_FILES = ["wrappers.py", "bijections/affine.py", "bijections/rational_quadratic_spline.py", "bijections/planar.py", "distributions.py",
@@ -43,8 +44,10 @@ def plan(tier, seed):
     reps = 3 if tier != "thorough" else 40
     hist = 1 if tier != "thorough" else 4
     shards = [{"name": f"C11-{i}", "shard": i, "nshards": nsh, "reps": reps, "histories": hist, "x64": True, "timeout": 3400} for i in range(nsh)]
-    if tier == "thorough":
-        shards += [{"name": f"C11-f32-{i}", "shard": 100 + i, "nshards": 4, "reps": 20, "histories": 0, "x64": False, "timeout": 3400} for i in range(4)]
+    # float32 pass (the library's default precision): constructor round trips lose digits first there
+    nf = 4 if tier == "thorough" else 2
+    shards += [{"name": f"C11-f32-{i}", "shard": 100 + 4 * i, "nshards": nf, "reps": 20 if tier == "thorough" else 2, "histories": 0, "x64": False, "opart": i, "timeout": 3400}
+               for i in range(nf)]
     return shards
 
 
@@ -133,7 +136,9 @@ def run_shard(shard):
                 strict = node.softmax_adjust >= 1e-3
                 for nm, p in (("x", xp), ("y", yp)):
                     dif = np.diff(p, axis=1)
-                    okm = np.all(dif > 0) if strict else np.all(dif >= 0)
+                    # softmax_adjust = 0 ("no adjustment"): widths may underflow and the cumulative sum may overshoot
+                    # the interval end by rounding - only non-decreasing up to rounding is required there
+                    okm = np.all(dif > 0) if strict else np.all(dif >= -(1e-12 if x64 else 1e-5) * (abs(lo) + abs(hi) + 1))
                     if not okm or not np.all(np.abs(p[:, 0] - lo) <= 1e-12 * (1 + abs(lo))) or not np.all(np.abs(p[:, -1] - hi) <= 1e-12 * (1 + abs(hi))):
                         j = int(np.argmin(dif.min(1)))
                         bad.append(("spline.knots", f"{tag}: {nm}-knots {p[j].tolist()} are not strictly increasing from {lo} to {hi}"))
@@ -233,13 +238,18 @@ def run_shard(shard):
         rec.count("pred_min_scale")
         return [] if np.all(sc >= 0.05) else [("min_scale", f"{tag}: scale {sc} below the configured minimum 0.05")]
 
+    # float64: the statement's box |raw| <= 50.  float32: |raw| <= 20 - at 50 the constrained values themselves (softplus(-50) =
+    # 1.9e-22) are representable but their squares / products (row norms of weight-normalised matrices, scale*w/|w|) fall into
+    # the flushed-to-zero denormal range and legitimately give 0 or 0/0.
+    BOX = 50.0 if x64 else 20.0
+
     def assign(model, kind, r):
         if kind == "uniform":
-            m = set_leaves(model, lambda i, a: r.uniform(-50, 50, size=a.shape))
+            m = set_leaves(model, lambda i, a: r.uniform(-BOX, BOX, size=a.shape))
         elif kind == "corner":
-            m = set_leaves(model, lambda i, a: r.choice([-50.0, 50.0], size=a.shape))
+            m = set_leaves(model, lambda i, a: r.choice([-BOX, BOX], size=a.shape))
         elif kind == "mixed":
-            m = set_leaves(model, lambda i, a: np.where(r.random(a.shape) < 0.3, r.choice([-50.0, 50.0], size=a.shape), r.normal(size=a.shape) * 5))
+            m = set_leaves(model, lambda i, a: np.where(r.random(a.shape) < 0.3, r.choice([-BOX, BOX], size=a.shape), r.normal(size=a.shape) * 5))
         else:
             m = set_leaves(model, lambda i, a: r.normal(size=a.shape) * 3)
         # planar: keep w.u representable (rescale u) - documented resolution limit
@@ -259,7 +269,7 @@ def run_shard(shard):
     objs = objects()
     only = shard.get("items")
     for oi, (name, builder) in enumerate(objs):
-        if oi % shard["nshards"] != shard["shard"] % shard["nshards"] and not only:
+        if oi % shard["nshards"] != shard.get("opart", shard["shard"]) % shard["nshards"] and not only:
             continue
         if only and only[0].get("object") != name:
             continue
